@@ -157,6 +157,13 @@ type txdataLike struct { // shape of eth_tx.txdata
 	V, R, S      *big.Int
 }
 
+type tPtrs struct { // nil and non-nil plain pointers of every pointee kind
+	B  *big.Int
+	S  *tStruct
+	L  *[]uint64
+	PP **[]uint64
+}
+
 type tNested2 struct {
 	L [][]byte
 	T tStruct
@@ -188,6 +195,9 @@ var bigIntType = reflect.TypeOf(big.Int{})
 // coqValue prints a decoded Go value as a term of type Typed.value.
 func coqValue(v reflect.Value) string {
 	t := v.Type()
+	if t == rawValueType {
+		return "VRaw (unhex " + hx.CoqHex(v.Bytes()) + ")"
+	}
 	if t == bigIntType {
 		bi := v.Addr().Interface().(*big.Int)
 		return "VNum " + bi.String()
@@ -288,12 +298,76 @@ func main() {
 	res := hx.NewResult("inputs: (1) implementation encodings of random item trees (depth<=4, string lengths straddling 1/55/56/255/256/65535), " +
 		"(2) every header byte of those mutated, (3) random bytes, (4) hostile declared sizes, (5) boundary corpus; thorough adds the exhaustive small space. " +
 		"non-trivial = distinct input whose decode outcome is not 'rejected on the first byte' and not empty input")
-	cs := hx.NewCases(a.Out, "From V.C08 Require Import Model Harness.\nFrom V.Base Require Import Hex.", "string * dobs * sobs * cobs", "check", 400)
+	// model-case budget: every input reaches the untyped model; the typed decoders of the zoo (26 types per
+	// input) are sampled: accepted inputs 1 in accEvery, rejected ones 1 in rejEvery
+	scale := a.N / 1500
+	if scale < 1 {
+		scale = 1
+	}
+	accEvery, rejEvery, perShard := 2*scale, 12*scale, 400
+	if a.Tier == "thorough" {
+		perShard = 1500
+	}
+	cs := hx.NewCases(a.Out, "From V.C08 Require Import Model Harness.\nFrom V.Base Require Import Hex.", "string * dobs * sobs * cobs", "check", perShard)
 	ts := hx.NewCasesNamed(a.Out, "typed", "From V.C08 Require Import Model Typed Harness.\nFrom V.Base Require Import Hex.", "ty * string * option value", "check_typed", 1500)
+	// descriptors of every type the codec cases mention, printed from reflection
+	gt := newGtyTable()
+	for _, z := range zoo {
+		gt.add(reflect.TypeOf(z.mk()).Elem())
+	}
+	for _, o := range pureOps {
+		if o.isEnc() {
+			gt.add(reflect.TypeOf(o.val()))
+		} else {
+			gt.add(reflect.TypeOf(o.mk()).Elem())
+		}
+	}
+	for _, v := range rtVals(hx.NewRng(0)) {
+		gt.add(reflect.TypeOf(v))
+	}
+	cc := hx.NewCasesNamed(a.Out, "codec", "From V.C08 Require Import Model Typed Codec Desc Harness.\nFrom V.Base Require Import Hex.\n"+gt.prelude(), "ccase", "check_codec", 1200)
 
 	// purity: type-cache first-use orders and failure histories, in fresh child processes
 	fresh := pureTier(a, rng.Fork(), res)
-	_ = fresh
+	for i, o := range pureOps {
+		obs := fresh[i]
+		if o.fail || obs == "" {
+			continue
+		}
+		if o.isEnc() {
+			v := reflect.ValueOf(o.val())
+			vs, ok := coqValueSafe(v)
+			if !ok {
+				continue
+			}
+			out := "None"
+			if strings.HasPrefix(obs, "E:") {
+				out = "(Some " + hx.CoqStr(obs[2:]) + ")"
+			}
+			cc.Add(fmt.Sprintf("CEnc %s (%s) %s", gt.name(v.Type()), vs, out), map[string]string{"call": o.name, "fresh-process result": obs})
+		} else {
+			out := "None"
+			if strings.HasPrefix(obs, "D:") {
+				out = "(Some (" + obs[2:] + "))"
+			}
+			cc.Add(fmt.Sprintf("CDec %s %s %s", gt.name(reflect.TypeOf(o.mk()).Elem()), hx.CoqHex(o.in), out), map[string]string{"call": o.name, "fresh-process result": obs})
+		}
+	}
+	for _, v := range []interface{}{3.5, int32(-1), map[string]string{}, make(chan int), struct{ A int }{}, struct {
+		A uint8 `rlp:"tail"`
+	}{}, struct {
+		R []uint8 `rlp:"tail"`
+		B uint8
+	}{}, struct {
+		A uint8 `rlp:"foo"`
+	}{}} {
+		_, err := rlp.EncodeToBytes(v)
+		if err == nil {
+			res.Violate("C08/encode-accepts-unsupported", "a type outside the supported set was encoded", fmt.Sprintf("%T", v))
+			continue
+		}
+		cc.Add("CBadTy "+coqGty(reflect.TypeOf(v)), map[string]string{"type": fmt.Sprintf("%T", v), "error": err.Error()})
+	}
 
 	var inputs [][]byte
 	add := func(b []byte) { inputs = append(inputs, b) }
@@ -503,12 +577,16 @@ func main() {
 					res.Violate("C08/panic:"+z.name, fmt.Sprint(pan), hex.EncodeToString(b))
 					continue
 				}
-				if tyd, ok := zooTy[z.name]; ok && len(b) <= 96 && (err == nil || (idx+len(z.name))%4 == 0) {
+				if h := idx + 7*len(z.name); len(b) <= 96 && ((err == nil && h%accEvery == 0) || (err != nil && h%rejEvery == 0)) {
 					obs := "None"
 					if err == nil {
 						obs = "Some (" + coqValue(reflect.ValueOf(tv).Elem()) + ")"
 					}
-					ts.Add(fmt.Sprintf("(%s, %s, %s)", tyd, hx.CoqHex(b), obs), map[string]string{"type": z.name, "input": hex.EncodeToString(b), "impl": obs})
+					cc.Add(fmt.Sprintf("CDec %s %s (%s)", gt.name(reflect.TypeOf(tv).Elem()), hx.CoqHex(b), obs), map[string]string{"type": z.name, "input": hex.EncodeToString(b), "impl": obs})
+					// the older item-tree model of the typed layer (Typed.v) on a sample
+					if tyd, ok := zooTy[z.name]; ok && h%(6*accEvery) == 0 {
+						ts.Add(fmt.Sprintf("(%s, %s, %s)", tyd, hx.CoqHex(b), obs), map[string]string{"type": z.name, "input": hex.EncodeToString(b), "impl": obs})
+					}
 				}
 				if err != nil {
 					continue
@@ -523,22 +601,20 @@ func main() {
 	}
 	// typed value round trips
 	for i := 0; i < a.N/4; i++ {
-		vals := []interface{}{
-			uint8(rng.U64()), uint16(rng.U64()), uint32(rng.U64()), rng.U64() >> uint(rng.Intn(64)),
-			new(big.Int).SetBytes(rng.Bytes(rng.Intn(40))), rng.Bool(), genBytes(rng), string(genBytes(rng)),
-			[1]byte{byte(rng.U64())}, [2]byte{byte(rng.U64()), byte(rng.U64())},
-			tStruct{rng.U64() >> uint(rng.Intn(64)), genBytes(rng), new(big.Int).SetBytes(rng.Bytes(rng.Intn(33)))},
-			tTail{uint8(rng.U64()), []uint16{uint16(rng.U64()), 0, 1}},
-			tArr1{[1]byte{byte(rng.Intn(3) * 0x7f)}, [1]byte{byte(rng.U64())}},
-			tNil{rng.U64() >> uint(rng.Intn(64)), nil, uint64(rng.Intn(3))},
-			tNil{1, &[20]byte{1, 2, 3}, 0},
-			txdataLike{rng.U64() >> 40, big.NewInt(int64(rng.Intn(1000))), 21000, nil, big.NewInt(0), genBytes(rng), big.NewInt(27), big.NewInt(1), big.NewInt(2)},
-		}
-		for _, v := range vals {
+		for vi, v := range rtVals(rng) {
 			enc, err := rlp.EncodeToBytes(v)
 			if err != nil {
 				res.Violate("C08/encode-error", err.Error(), fmt.Sprintf("%T", v))
 				continue
+			}
+			if len(enc) <= 300 && (i+vi)%(3*scale) == 0 {
+				if vs, ok := coqValueSafe(reflect.ValueOf(v)); ok {
+					cc.Add(fmt.Sprintf("CEnc %s (%s) (Some %s)", gt.name(reflect.TypeOf(v)), vs, hx.CoqHex(enc)), map[string]string{"type": fmt.Sprintf("%T", v), "value": vs, "impl": hex.EncodeToString(enc)})
+					res.Histogram["model-cases-encode"]++
+				}
+			}
+			if _, nilPtrs := v.(tPtrs); nilPtrs {
+				continue // nil plain pointers are written as the zero value: encoder correspondence only
 			}
 			pv := reflect.New(reflect.TypeOf(v))
 			err, pan := safeDecode(enc, pv.Interface())
@@ -555,9 +631,54 @@ func main() {
 	}
 	cs.Close()
 	ts.Close()
-	res.ModelCases = cs.Total() + ts.Total()
+	cc.Close()
+	res.ModelCases = cs.Total() + ts.Total() + cc.Total()
 	res.Histogram["model-cases-typed"] = ts.Total()
+	res.Histogram["model-cases-codec"] = cc.Total()
+	res.Note("codec cases use descriptors printed from reflection for: " + gt.summary())
 	res.Write(a.Out)
+}
+
+// rtVals: one batch of typed values for the encode-then-decode search and the encoder correspondence.
+func rtVals(rng *hx.Rng) []interface{} {
+	small := func() uint64 { return rng.U64() >> uint(rng.Intn(64)) }
+	ts1 := tStruct{small(), genBytes(rng), new(big.Int).SetBytes(rng.Bytes(rng.Intn(33)))}
+	var pl *[]uint64
+	if rng.Bool() {
+		pl = &[]uint64{small(), 1}
+	}
+	var pa *[20]byte
+	if rng.Bool() {
+		pa = new([20]byte)
+		copy(pa[:], rng.Bytes(20))
+	}
+	var pts *tStruct
+	if rng.Bool() {
+		pts = &ts1
+	}
+	var nb *big.Int
+	if rng.Intn(4) > 0 {
+		nb = big.NewInt(int64(rng.Intn(300)))
+	}
+	rawTree, _ := rlp.EncodeToBytes(genTree(rng, 2))
+	return []interface{}{
+		uint8(rng.U64()), uint16(rng.U64()), uint32(rng.U64()), small(),
+		new(big.Int).SetBytes(rng.Bytes(rng.Intn(40))), rng.Bool(), genBytes(rng), string(genBytes(rng)),
+		[1]byte{byte(rng.U64())}, [2]byte{byte(rng.U64()), byte(rng.U64())},
+		ts1,
+		tTail{uint8(rng.U64()), []uint16{uint16(rng.U64()), 0, 1}},
+		tArr1{[1]byte{byte(rng.Intn(3) * 0x7f)}, [1]byte{byte(rng.U64())}},
+		tNil{small(), nil, uint64(rng.Intn(3))},
+		tNil{1, &[20]byte{1, 2, 3}, 0},
+		txdataLike{rng.U64() >> 40, big.NewInt(int64(rng.Intn(1000))), 21000, pa, big.NewInt(0), genBytes(rng), big.NewInt(27), big.NewInt(1), big.NewInt(2)},
+		tNilList{small(), pl},
+		tIgnore{uint32(small()), 7, string(genBytes(rng))},
+		tNested{[][]byte{genBytes(rng), {}}, ts1, &ts1, rlp.RawValue(rawTree), genTree(rng, 2), [2]uint16{uint16(small()), 0}, rng.Bool()},
+		tNested2{[][]byte{genBytes(rng)}, ts1, &ts1, genTree(rng, 2), [2]uint16{uint16(small()), 1}, rng.Bool()},
+		rlp.RawValue(rawTree),
+		[]uint64{small(), small(), 0}, [][]byte{genBytes(rng), {}, {0x7f}}, [3]uint16{uint16(small()), 0, 1},
+		tPtrs{nb, pts, pl, &pl},
+	}
 }
 
 // nonCanonical rewrites the outermost header of a valid encoding into the non-canonical forms a
@@ -633,8 +754,9 @@ func eqVal(a, b interface{}) bool {
 		return x.Cmp(b.(*big.Int)) == 0
 	case []byte:
 		return bytes.Equal(x, b.([]byte))
-	case tStruct, tTail, txdataLike, tNil:
-		return true // compared through their canonical encoding (contain *big.Int / nil-vs-empty slices)
+	}
+	if reflect.TypeOf(a).Kind() == reflect.Struct {
+		return true // compared through their canonical encoding (contain *big.Int / nil-vs-empty slices / ignored fields)
 	}
 	return reflect.DeepEqual(a, b)
 }
